@@ -14,7 +14,7 @@
              conf turns FALSE at the first event the design spec cannot explain (confAt).          *)
 EXTENDS Naturals, Sequences, FiniteSets, TLC, Json, IOUtils
 
-CONSTANTS P, NPar, ErFrom, TocFrom, NAtt, MaxFaults, FaultBy, MaxPings, UseSync, Closer
+CONSTANTS P, NPar, ErFrom, LogStart, LogEnd, ParStart, NAtt, MaxFaults, FaultBy, MaxPings, UseSync, Closer
 
 \* the batch is read once (Init) and kept in a TLC register: re-evaluating JsonDeserialize at every reference
 \* costs milliseconds per event
